@@ -36,6 +36,24 @@ def atom_texts(k, q):
 
 
 N_ATOMS = 7
+
+
+def _raws():
+    """terms that are NOT criteria but are accepted by where()/having() (typed Union[Term, EmptyCriterion]): a raw SQL
+    escape hatch and an arithmetic expression.  They have no `&`, so they can only be the first term of a slot - and the
+    empty criterion handed in later must still be ignored (seeded/C19-15)."""
+    from pypika import Table
+    from pypika.terms import LiteralValue
+    t = Table("t")
+    return [LiteralValue('"a" % 2 = 0'), t.a - t.b, LiteralValue("COUNT(*) > 1")]
+
+
+def raw_texts(k, q):
+    a = _raws()[k]
+    return (a.get_sql(quote_char=q, secondary_quote_char="'"), a.get_sql(quote_char=q, secondary_quote_char="'", with_namespace=True))
+
+
+N_RAWS = 3
 CLASSES = ["Query", "MySQLQuery", "VerticaQuery", "OracleQuery", "PostgreSQLQuery", "RedshiftQuery", "MSSQLQuery",
            "ClickHouseQuery", "SQLLiteQuery", "SnowflakeQuery"]
 
@@ -91,6 +109,18 @@ def gen_cases(rng, tier):
             for _ in range(rng.choice([0, 0, 3])):
                 members.insert(rng.randrange(len(members)), ["empty"])
             out.append({"cls": rng.choice(CLASSES), "calls": [[rng.random() < 0.3, [kind, members]]]})
+    # a non-criterion term as the first term of a slot, then only empty criteria for that slot (any criteria for the other)
+    for i in range(30 if tier == "quick" else 300):
+        h = rng.random() < 0.4
+        calls = [[h, ["raw", rng.randrange(N_RAWS)]]]
+        for _ in range(rng.choice([1, 1, 2, 3])):
+            if rng.random() < 0.75:
+                calls.append([h, gen_expr(rng, rng.choice([0, 1, 2, 3]), 1.0)])          # evaluates to the empty criterion
+            else:
+                calls.append([not h, gen_expr(rng, rng.choice([1, 2]), rng.choice([0.0, 0.3, 1.0]))])
+        if rng.random() < 0.3:
+            calls.insert(0, [h, gen_expr(rng, rng.choice([0, 1, 2]), 1.0)])               # empties before the raw term too
+        out.append({"cls": rng.choice(CLASSES), "calls": calls})
     # PostgreSQL conflict handlers have their own where(): the empty criterion must be ignored there too
     for i in range(40 if tier == "quick" else 400):
         out.append({"pgconf": rng.choice(["nothing", "update", "target"]),
@@ -109,6 +139,9 @@ def corpus():
         {"pgconf": "nothing", "calls": [[False, ["all", []]], [False, ["inv", e]]]},
         {"pgconf": "update", "calls": [[False, e], [False, a], [False, ["any", [e, e]]]]},
         {"pgconf": "target", "calls": [[False, ["and", e, e]], [False, b]]},
+        {"calls": [[False, ["raw", 0]], [False, e], [False, ["all", []]], [False, ["any", [["all", []], ["inv", e]]]]]},
+        {"calls": [[False, ["raw", 1]], [False, e]], "cls": "OracleQuery"},
+        {"calls": [[True, ["raw", 2]], [True, ["all", [e, e]]], [False, a]], "cls": "MySQLQuery"},
         {"calls": [[False, e]]},
         {"calls": [[False, e], [True, e]]},
         {"calls": [[False, ["and", e, a]], [False, ["or", a, e]], [False, ["xor", e, e]]]},
@@ -128,6 +161,8 @@ def build(e):
         return EmptyCriterion()
     if k == "atom":
         return _atoms()[e[1]]
+    if k == "raw":
+        return _raws()[e[1]]
     if k in OPS:
         x, y = build(e[1]), build(e[2])
         return x & y if k == "and" else (x | y if k == "or" else x ^ y)
@@ -179,6 +214,9 @@ def expr_coq(e):
     if k == "atom":
         p_, n_ = atom_texts(e[1], Q_[0])
         return "(XAtomT %s %s %s)" % (S(p_), S(n_), B(FOREIGN[e[1]]))
+    if k == "raw":
+        p_, n_ = raw_texts(e[1], Q_[0])
+        return "(XAtomT %s %s false)" % (S(p_), S(n_))
     if k in OPS:
         return "(XBin %s %s %s)" % (OPS[k], expr_coq(e[1]), expr_coq(e[2]))
     if k == "inv":
@@ -211,6 +249,8 @@ def _ref(e):
         return None
     if k == "atom":
         return _atoms()[e[1]]
+    if k == "raw":
+        return _raws()[e[1]]
     if k in OPS:
         x, y = _ref(e[1]), _ref(e[2])
         if x is None:
